@@ -34,6 +34,72 @@ KANI_UNITS["C08"] = dict(
                               "operands reach the comparison as Value::Int / Value::Float (event-field lookup not modelled)"],
 )
 
+KANI_UNITS["C11"] = dict(
+    prop="C11", crate="varpulis-runtime",
+    appends=[("crates/varpulis-runtime/src/engine/evaluator.rs", "__vpv_c11", "contracts/kani/c11.rs")],
+    grade="K-complete", level="proof", timeout=3000, harness_timeout=240,
+    cell_grades={"c11_index_|c11_slice_|c11_fn_get_array|c11_fn_set_array|c11_fn_substring|c11_bin_add_ss": "K-bounded(container/string literal of length 2; indices full-domain i64)"},
+    functions=["varpulis-runtime/src/engine/evaluator.rs: eval_expr_with_functions (Binary arm: all 24 BinOp variants; Unary arm: all 3; Index, Slice, If, Coalesce arms; literal arms)",
+               "varpulis-runtime/src/engine/evaluator.rs: eval_builtin_function (abs sqrt floor ceil round pow log log10 exp sin cos min max to_int to_float is_null is_int type_of get set substring)"],
+    explanation=("One cell per (operator, operand kinds) / built-in: the REAL evaluator is run on an expression whose operands are Int/Float/Bool literals "
+                 "with full-domain i64/f64 payloads (incl. i64::MIN/MAX, -1, 0, NaN, +-inf) — built-ins additionally take a symbolic kind; the obligation is that "
+                 "none of Kani's panic checks (arithmetic overflow, division/remainder by zero or overflow, index/slice bounds, unwrap on None, explicit panic) "
+                 "is reachable. Loop-free cells are complete; Index/Slice/get/set/substring use a container literal of length 2 (bounded in the container, "
+                 "full-domain in the index) and are labelled bounded. NOT covered: operands read from event fields (hash-map lookup is out of CBMC's reach), "
+                 "string built-ins over arbitrary strings, `tan` (unsupported foreign call in Kani), user-defined function statements, range materialisation (excluded by the property)."),
+    assumptions=EVAL_STUBS + ["CBMC's own float-model checks (NaN on ..., float overflow) are not Rust panics and are ignored by class"],
+)
+
+C10_SHIM = '''
+// ---- vpv: re-export shim (verification builds only); the three functions below are the crate's own private functions ----
+#[cfg(any(kani, vpv_replay))]
+pub fn __vpv_fold_binary(op: BinOp, left: Expr, right: Expr) -> Expr { fold_binary(op, left, right) }
+#[cfg(any(kani, vpv_replay))]
+pub fn __vpv_fold_unary(op: UnaryOp, inner: Expr) -> Expr { fold_unary(op, inner) }
+#[cfg(any(kani, vpv_replay))]
+pub fn __vpv_fold_expr(e: Expr) -> Expr { fold_expr(e) }
+'''
+
+KANI_UNITS["C10"] = dict(
+    prop="C10", crate="varpulis-runtime",
+    appends=[("crates/varpulis-runtime/src/engine/evaluator.rs", "__vpv_c10", "contracts/kani/c10.rs")],
+    extra_appends=[("crates/varpulis-parser/src/optimize.rs", C10_SHIM)],
+    grade="K-complete", level="proof", timeout=3000, harness_timeout=300,
+    cell_grades={"c10_expr_": "K-bounded(expression depth 2)", "_str$": "K-bounded(2-byte string literal)"},
+    functions=["varpulis-parser/src/optimize.rs: fold_binary (every arm: 10 literal arms, 8 identity arms, reconstruct), fold_unary, fold_expr (depth-2 shell)",
+               "varpulis-runtime/src/engine/evaluator.rs: eval_expr_with_functions (as the semantics both sides are compared under)"],
+    explanation=("One cell per rewrite arm of the REAL fold_binary/fold_unary: for literal x literal arms the operands are full-domain i64/f64; for the identity "
+                 "arms (x*0, 0*x, x*1, 1*x, x+0, 0+x, x-0, x/1) the wildcard operand ranges over literal leaves of every other kind (Float full-domain, Str, Bool, "
+                 "Null) and over the literal-only sub-expression 1/0 which evaluates to NO value. Contract: the REAL evaluator gives the same Option<Value> (Value::eq) "
+                 "for the folded and the unfolded expression and neither side panics. Loop-free full-domain cells are complete proofs of their arm. Field references "
+                 "are represented by literal leaves of each value type (event-field lookup is a hash-map lookup, outside CBMC's reach)."),
+    assumptions=EVAL_STUBS + ["cfg(kani) re-export shim appended to optimize.rs (3 one-line wrappers)", "Value::eq is the notion of 'same value' (NaN == NaN, -0.0 == 0.0)"],
+)
+
+C09_SHIM = '''
+// ---- vpv: re-export shim (verification builds only) ----
+#[cfg(any(kani, vpv_replay))]
+pub fn __vpv_compare_values(left: &Value, right: &Value, op: CompareOp) -> bool { compare_values(left, right, op) }
+'''
+
+KANI_UNITS["C09"] = dict(
+    prop="C09", crate="varpulis-runtime",
+    appends=[("crates/varpulis-runtime/src/engine/evaluator.rs", "__vpv_c09", "contracts/kani/c09.rs")],
+    extra_appends=[("crates/varpulis-runtime/src/sase.rs", C09_SHIM)],
+    grade="K-complete", level="other", timeout=3000, harness_timeout=300,
+    cell_grades={"_str": "K-bounded(1-character ASCII strings)", "c09_pred_": "K-bounded(1-character field name)"},
+    functions=["varpulis-runtime/src/sase.rs: compare_values, values_equal, values_compare (pattern-step filter kernel)",
+               "varpulis-runtime/src/engine/evaluator.rs: eval_expr_with_functions (Binary comparison arms) as used by .where: eval(..).and_then(as_bool).unwrap_or(false)",
+               "varpulis-runtime/src/engine/compiler.rs: expr_to_sase_predicate (operator table and operand order for `field <op> literal`), expr_to_value"],
+    explanation=("PARTIAL (comparison kernel only). 90 cells = 6 comparison operators x 15 operand-kind pairs over {Int, Float (full-domain), Bool, Str (1 ASCII char), Null}: "
+                 "the pattern-step kernel compare_values(l, r, op) must give the same truth value as the `.where` truth function on Binary{op, lit(l), lit(r)} evaluated by the "
+                 "REAL evaluator; plus 6 cells showing that expr_to_sase_predicate maps `f <op> literal` to Compare{f, the same operator, the same value}. "
+                 "NOT decided: everything that needs an event with fields — missing or mistyped FIELDS (as opposed to literal operands of another kind), CompareRef against "
+                 "captured aliases, and not/and/or over undefined operands (by reading: `not (x > 5)` with x missing is true as a step filter and false in .where). Those paths go "
+                 "through IndexMap/FxHashMap lookups which CBMC cannot carry here."),
+    assumptions=EVAL_STUBS + ["cfg(kani) re-export shim appended to sase.rs (1 one-line wrapper)"],
+)
+
 
 def write_undecided(prop, tier, reason, wall):
     u = KANI_UNITS.get(prop) or VERUS_UNITS.get(prop) or {}
@@ -157,3 +223,13 @@ VERUS_UNITS["C03"] = _zdd_unit("C03",
     "consecutive members, non-empty requirement), the two cap comparisons in advance_run_shared (max Kleene events, max results) and the "
     "single-match path; they live in functions built on FxHashMap<String, Arc<Event>>, Instant and closures, outside both verifiers. A mutated "
     "cap is NOT detected by this check.", level="other")
+
+
+VERUS_UNITS["C31"] = dict(prop="C31", template="contracts/verus/c31.rs.tmpl", gen_name="c31", ledger="obligations/c31.json", level="proof",
+    explanation=("validate_path (crates/varpulis-cli/src/security.rs) is extracted VERBATIM and verified by Verus against: Ok(p) ==> the work directory resolves, "
+                 "the requested path (the request if absolute, else workdir/request) resolves, p IS that resolved path, and std reports p as lying under the RESOLVED work "
+                 "directory — for every input string and every behaviour of the file system that canonicalize/starts_with can report (they are uninterpreted). "
+                 "What is assumed, not proved: that Path::canonicalize resolves `..` and symlinks and that Path::starts_with is a component-wise prefix test (std's documented "
+                 "contracts). Not covered: TOCTOU between check and use; callers (websocket.rs) using the returned path; validate_workdir."),
+    assumptions=["assume_specification: Path::canonicalize, Path::starts_with, Path::is_absolute, Path::join, Path::display, <PathBuf as Deref>::deref (uninterpreted std::path model)",
+                 "PathBuf::from(&str) carries no contract (the proof holds for whatever PathBuf it returns)"])
